@@ -144,7 +144,7 @@ theorem fuseAll_eq (fc : FCfg) (st : GState) (n : Nat) :
 theorem fuseAll_inv (fc : FCfg) (hL : fc.checkLater = true) (hB : fc.checkBlock = true) (st : GState) (n : Nat)
     (hnd : (outsOf st.program).Nodup) (hcl : liveIn st.program = []) (hblk : ∀ p ∈ st.body, p.1 < n) :
     ∀ k, k ≤ n →
-      FInv st.program (blockOfV st.vars) k []
+      FInv st.bodyS (blockOfV st.vars) (reuseV st.vars) k []
         ((List.range k).foldl (fun grp b =>
           fuseBlock fc st.vars (depsOf (st.allStmts n).zipIdx) (Lb (st.allStmts n).zipIdx b) [] grp) (List.range st.vars.length)) ∧
       ((List.range k).foldl (fun grp b =>
@@ -152,7 +152,7 @@ theorem fuseAll_inv (fc : FCfg) (hL : fc.checkLater = true) (hB : fc.checkBlock 
         = st.vars.length
   | 0, _ => by
     simp only [List.range_zero, List.foldl_nil, List.length_range, and_true]
-    exact FInv.init _ _ _
+    exact FInv.init _ _ _ _
   | k + 1, hk => by
     obtain ⟨ih, ihlen⟩ := fuseAll_inv fc hL hB st n hnd hcl hblk k (by omega)
     rw [List.range_succ, List.foldl_append]
@@ -161,17 +161,25 @@ theorem fuseAll_inv (fc : FCfg) (hL : fc.checkLater = true) (hB : fc.checkBlock 
     have hP := bodyS_program st
     have := fuseBlock_block fc hL hB st.vars (st.allStmts n).zipIdx st.bodyS (by rw [hP]; exact hnd) (by rw [hP]; exact hcl)
       (allStmts_complete st n hblk) k (Lb (st.allStmts n).zipIdx k) ((st.header k).map (·.stmt)) (header_noinputs st k)
-      (Lb_allStmts st n k (by omega)) (Lb_mem _ k) (Lb_nodup _ k) _ ihlen (by rw [hP]; exact ih)
-    rw [hP] at this
+      (Lb_allStmts st n k (by omega)) (Lb_mem _ k) (Lb_nodup _ k) _ ihlen ih
     exact this.next
+
+/-- The invariant for the groups `fuseAll` returns. -/
+theorem fuseAll_finv (fc : FCfg) (hL : fc.checkLater = true) (hB : fc.checkBlock = true) (st : GState) (n : Nat)
+    (hnd : (outsOf st.program).Nodup) (hcl : liveIn st.program = []) (hblk : ∀ p ∈ st.body, p.1 < n) :
+    FInv st.bodyS (blockOfV st.vars) (reuseV st.vars) n [] (fuseAll fc st n) := by
+  obtain ⟨hinv, _⟩ := fuseAll_inv fc hL hB st n hnd hcl hblk n (Nat.le_refl _)
+  rw [← fuseAll_eq] at hinv
+  exact hinv
 
 /-- **The groups of `fuseAll` are `fuseSafe`** on the emitted statements (emission order), for every generator state whose
 statements define every variable once, read no variable before its definition and lie in blocks below `nblocks`. -/
 theorem fuseAll_safe (fc : FCfg) (hL : fc.checkLater = true) (hB : fc.checkBlock = true) (st : GState) (n : Nat)
     (hnd : (outsOf st.program).Nodup) (hcl : liveIn st.program = []) (hblk : ∀ p ∈ st.body, p.1 < n) :
     fuseSafe (fun v => (fuseAll fc st n)[v]?.getD v) st.program = true := by
-  obtain ⟨hinv, _⟩ := fuseAll_inv fc hL hB st n hnd hcl hblk n (Nat.le_refl _)
-  rw [← fuseAll_eq] at hinv
-  exact safe_of_ordered st.program _ hnd hcl hinv.ord
+  have hinv := fuseAll_finv fc hL hB st n hnd hcl hblk
+  have hord := hinv.ord
+  rw [bodyS_program] at hord
+  exact safe_of_ordered st.program _ hnd hcl hord
 
 end Einx.Compile
